@@ -307,6 +307,70 @@ func c12cCreateBody(mode string, res *string) func(x *sched.Exec) {
 	}
 }
 
+// c12cManyViewsBody (K16): "multiple matching views" while ANOTHER instrument is being created at
+// the same moment. Three views match counter "a" and rename it to a1, a2, a3; one thread creates
+// "a" and records 1, another creates a float64 counter "f" (the other inserter of the same
+// pipeline) and records 3. Whatever the two creations share (identifier counters, caches), every
+// one of the three streams holds the measurement exactly once, and so does "f".
+func c12cManyViewsBody(res *string) func(x *sched.Exec) {
+	return func(x *sched.Exec) {
+		ctx := context.Background()
+		delta := NewManualReader(WithTemporalitySelector(func(InstrumentKind) metricdata.Temporality { return metricdata.DeltaTemporality }))
+		mp := NewMeterProvider(WithReader(delta), WithView(
+			NewView(Instrument{Name: "a"}, Stream{Name: "a1"}),
+			NewView(Instrument{Name: "a"}, Stream{Name: "a2"}),
+			NewView(Instrument{Name: "a"}, Stream{Name: "a3"})))
+		var wg vsync.WaitGroup
+		wg.Add(2)
+		sched.Go(func() {
+			defer wg.Done()
+			if c, err := mp.Meter("m").Int64Counter("a"); err == nil && c != nil {
+				c.Add(ctx, 1, api.WithAttributes(attribute.String("k", "x")))
+			}
+		})
+		sched.Go(func() {
+			defer wg.Done()
+			if c, err := mp.Meter("m").Float64Counter("f"); err == nil && c != nil {
+				c.Add(ctx, 3, api.WithAttributes(attribute.String("k", "x")))
+			}
+		})
+		wg.Wait()
+		var rm metricdata.ResourceMetrics
+		if err := delta.Collect(ctx, &rm); err != nil {
+			x.Fail("C12|conc|creation|collect-error", "Collect: %v", err)
+		}
+		got := map[string]float64{}
+		n := map[string]int{}
+		for _, sm := range rm.ScopeMetrics {
+			for _, m := range sm.Metrics {
+				n[m.Name]++
+				switch d := m.Data.(type) {
+				case metricdata.Sum[int64]:
+					for _, dp := range d.DataPoints {
+						got[m.Name] += float64(dp.Value)
+					}
+				case metricdata.Sum[float64]:
+					for _, dp := range d.DataPoints {
+						got[m.Name] += dp.Value
+					}
+				}
+			}
+		}
+		want := map[string]float64{"a1": 1, "a2": 1, "a3": 1, "f": 3}
+		for name, w := range want {
+			if n[name] != 1 || got[name] != w {
+				x.Fail("C12|conc|creation|a stream of several matching views lost or repeated the measurement", "three views rename counter a to a1, a2, a3 while another thread creates counter f: stream %s reported %d time(s) with total %v, want once with %v (all: %v)", name, n[name], got[name], w, got)
+			}
+		}
+		for name := range n {
+			if _, ok := want[name]; !ok {
+				x.Fail("C12|conc|creation|unexpected-stream", "the reader reports a stream named %q", name)
+			}
+		}
+		*res = fmt.Sprint(got)
+	}
+}
+
 type c12cJob struct {
 	sc c12cScn
 	p  int
@@ -499,10 +563,20 @@ func TestVerifC12Conc(t *testing.T) {
 	names = append(names, cbJob)
 	tcJob := fmt.Sprintf("K15-two-collections-of-one-reader-observable-through-a-filter/P%d", pc)
 	names = append(names, tcJob)
+	mvJob := fmt.Sprintf("K16-three-matching-views-while-another-instrument-is-created/P%d", pc)
+	names = append(names, mvJob)
 	sort.Strings(names[len(all):])
 	enum.Jobs(names, func(job string) {
 		r := enum.Start("C12", "conc")
 		defer r.Finish()
+		if job == mvJob {
+			r.Bound("conc/many_views_max_preemptions", pc)
+			var res string
+			st := sched.Explore(r, sched.Config{Name: job, MaxP: pc, MaxE: 0, MaxSteps: 6000, Body: c12cManyViewsBody(&res),
+				Outcome: func(*sched.Exec) string { return res }})
+			t.Logf("%s: execs=%d states=%d outcomes=%d complete=%v keys=%v", job, st.Execs, st.States, len(st.Outcomes), st.Complete, r.Keys())
+			return
+		}
 		if job == tcJob {
 			r.Bound("conc/two_collects_max_preemptions", pc)
 			var res string
